@@ -101,7 +101,7 @@ OutOfRange(n, hashes, leaves) ==
   \/ \E i \in DOMAIN hashes : i \notin Nodes(n)
   \/ \E l \in DOMAIN leaves : FirstLeaf(n) + l \notin Nodes(n)
 SetHashes(n, t, hashes, leaves) ==
-  IF OutOfRange(n, hashes, leaves) THEN [res |-> {"range"}, tree |-> t]
+  IF OutOfRange(n, hashes, leaves) THEN [res |-> {"range", "bad", "notenough"}, tree |-> t]   \* refused - under whichever name
   ELSE IF ArgConflict(n, hashes, leaves) THEN [res |-> {"bad"}, tree |-> t]
   ELSE LET new == Merged(n, hashes, leaves) IN
     IF Conflicts(t, new) THEN [res |-> {"bad"}, tree |-> t]
